@@ -124,6 +124,32 @@ def OpsProg (l : Nat) (p : Prog) : Prop := ∀ t ∈ p, opsShape l false t = tru
 
 instance (l : Nat) (p : Prog) : Decidable (OpsProg l p) := by unfold OpsProg; infer_instance
 
+/-- As `opsShape`, but a thread may also take local steps (`tau`) between its operations. -/
+def opsShapeT (l : Nat) : Bool → Thread → Bool
+  | false, [] => true
+  | true, [] => false
+  | false, .lock l' :: r => l' = l && opsShapeT l true r
+  | false, .tau :: r => opsShapeT l false r
+  | false, _ :: _ => false
+  | true, .unlock l' :: r => l' = l && opsShapeT l false r
+  | true, .lock _ :: _ => false
+  | true, _ :: r => opsShapeT l true r
+
+def OpsProgT (l : Nat) (p : Prog) : Prop := ∀ t ∈ p, opsShapeT l false t = true
+
+instance (l : Nat) (p : Prog) : Decidable (OpsProgT l p) := by unfold OpsProgT; infer_instance
+
+/-- the thread without its local steps outside critical sections -/
+def stripT : Bool → Thread → Thread
+  | _, [] => []
+  | false, .tau :: r => stripT false r
+  | false, .lock l :: r => .lock l :: stripT true r
+  | false, a :: r => a :: stripT false r
+  | true, .unlock l :: r => .unlock l :: stripT false r
+  | true, a :: r => a :: stripT true r
+
+def stripProg (p : Prog) : Prog := p.map (stripT false)
+
 /-- length of the first operation (through its `unlock`) -/
 def opLen : Thread → Nat
   | [] => 0
